@@ -153,6 +153,18 @@ def _host_modules():
 HOST_MODULES = _host_modules()
 
 
+def _is_generator(fn):
+    stack = list(fn.body)
+    while stack:
+        n = stack.pop()
+        if isinstance(n, (ast.Yield, ast.YieldFrom)):
+            return True
+        if isinstance(n, (ast.FunctionDef, ast.AsyncFunctionDef, ast.Lambda, ast.ClassDef)):
+            continue
+        stack.extend(ast.iter_child_nodes(n))
+    return False
+
+
 class HostInterp:
     def __init__(self, cls_methods, self_obj, lookup_table, subtler_token="SUBTLER", globals_env=None, classes=None, functions=None):
         self.classes = classes or {}      # name -> {method name -> FunctionDef}: classes whose objects are interpreted
@@ -191,6 +203,17 @@ class HostInterp:
                 env[p] = self.ev(dmap[p], env)
             else:
                 raise AnalysisError(f"interpreting {fn.name}: missing argument {p}")
+        if _is_generator(fn):
+            # generators are run eagerly: the values yielded, in order
+            self._gens = getattr(self, "_gens", [])
+            self._gens.append([])
+            try:
+                self.block(fn.body, env)
+            except _Return:
+                pass
+            finally:
+                out = self._gens.pop()
+            return out
         try:
             self.block(fn.body, env)
         except _Return as r:
@@ -267,7 +290,7 @@ class HostInterp:
         if isinstance(st, ast.Raise):
             r = Raised(dotted(st.exc.func) if isinstance(st.exc, ast.Call) else "raise")
             r.value = None
-            if st.exc is not None and not isinstance(st.exc, ast.Call):
+            if st.exc is not None:
                 try:
                     r.value = self.ev(st.exc, env)
                 except AnalysisError:
@@ -473,6 +496,16 @@ class HostInterp:
             v = self.ev(e.value, env)
             self.bind(e.target, v, env)
             return v
+        if isinstance(e, ast.Yield):
+            if not getattr(self, "_gens", None):
+                raise AnalysisError("interpretation: yield outside an interpreted generator")
+            self._gens[-1].append(self.ev(e.value, env) if e.value is not None else None)
+            return None
+        if isinstance(e, ast.YieldFrom):
+            if not getattr(self, "_gens", None):
+                raise AnalysisError("interpretation: yield from outside an interpreted generator")
+            self._gens[-1].extend(list(self.ev(e.value, env)))
+            return None
         if isinstance(e, (ast.ListComp, ast.GeneratorExp)):
             return self.comp(e, env)
         if isinstance(e, ast.Call):
